@@ -170,10 +170,17 @@ MapOf(s, mode) == s.maps[s.modes[mode + 1].map + 1]
 Ones(n) == [i \in 1..n |-> 1]
 \* the floor whose integer domain is probed is the one decoded last: that of the last channel, if it is in use
 LastFloor(s, mode) == s.floors[MapOf(s, mode).sfloor[SubmapOf(MapOf(s, mode), s.ch) + 1] + 1]
-FP(s, mode, lw, nw, salt, fl) == [W |-> s.modes[mode + 1].bf, ns |-> 1, f |-> FullPacket(s, mode, lw, nw, salt, fl),
-                                  fit |-> IF fl[s.ch] = 1 /\ LastFloor(s, mode).type = 1 THEN Floor1Fit(s, LastFloor(s, mode), salt + s.ch) ELSE <<>>,
-                                  yc |-> IF fl[s.ch] = 1 /\ LastFloor(s, mode).type = 1 THEN Floor1Curve(s, LastFloor(s, mode), salt + s.ch, HalfOf(s, mode)) ELSE <<>>,
-                                  rv |-> PacketResidue(s, mode, salt, fl), cv |-> PacketSpectrum(s, mode, salt, fl)]
+\* (each intermediate result is computed once per packet and the later ones are built from it)
+FP(s, mode, lw, nw, salt, fl) ==
+  LET m == MapOf(s, mode)  half == HalfOf(s, mode)
+      rv == PacketResidue(s, mode, salt, fl)
+      cv == Decouple(rv, m.coupling, Len(m.coupling))
+      flo(k) == s.floors[m.sfloor[SubmapOf(m, k) + 1] + 1]
+      curves == [k \in 1..s.ch |-> IF fl[k] = 1 /\ flo(k).type = 1 THEN Floor1Curve(s, flo(k), salt + k, half) ELSE <<>>]
+      pv == [k \in 1..s.ch |-> IF fl[k] = 0 THEN [x \in 1..half |-> <<0, 0, 0>>] ELSE IF flo(k).type # 1 THEN <<>> ELSE [x \in 1..half |-> FMul(DbTable[curves[k][x] + 1], cv[k][x])]]
+  IN [W |-> s.modes[mode + 1].bf, ns |-> 1, f |-> FullPacket(s, mode, lw, nw, salt, fl),
+      fit |-> IF fl[s.ch] = 1 /\ LastFloor(s, mode).type = 1 THEN Floor1Fit(s, LastFloor(s, mode), salt + s.ch) ELSE <<>>,
+      yc |-> curves[s.ch], rv |-> rv, cv |-> cv, pv |-> pv]
 CWOf(s0) == [b \in 1..Len(s0.books) |-> Codewords(s0.books[b].lens)]
 FullAudio(s0, fls) == LET s == s0 @@ [cw |-> cw] IN << FP(s, 0, 0, 0, 1, fls[1]), FP(s, 1, 0, 1, 2, fls[2]), FP(s, 1, 1, 0, 3, fls[3]), FP(s, 0, 0, 0, 4, fls[4]), FP(s, 0, 0, 0, 5, fls[5]) >>
 \* the twin needs the packets only
